@@ -118,7 +118,9 @@ CM_JAR = "/opt/veriftools/tla/CommunityModules-deps.jar"
 
 
 def tlc_cmd(module, cfg, workers, metadir, extra=()):
-    return ["java", "-cp", TLC_JAR + ":" + CM_JAR, "tlc2.TLC", "-workers", str(workers), "-metadir", metadir,
+    # TLC's scratch directories (java.io.tmpdir) live inside the metadir and go away with it - nothing is left in /tmp
+    os.makedirs(metadir, exist_ok=True)
+    return ["java", "-Djava.io.tmpdir=" + os.path.abspath(metadir), "-cp", TLC_JAR + ":" + CM_JAR, "tlc2.TLC", "-workers", str(workers), "-metadir", metadir,
             "-cleanup", "-noGenerateSpecTE", "-config", cfg] + list(extra) + [module]
 
 
